@@ -228,7 +228,9 @@ def run(ctx):
             (len(beh), dict(sorted(biases.items())), len(behx)))
 
     # ---- 3. the real code
+    # (the test's own time limit is below the outer one: a driver that hangs reports its goroutines)
     tp, out = ctx.godriver("c11", "TestC11", cases=cp, timeout=420 if q else 1500,
+                           extra=("-timeout", "%ds" % (390 if q else 1470)),
                            env={"VERIF_C11_LANES": os.environ.get("VERIF_C11_LANES", "24" if q else "40")})
     events = vlib.read_ndjson(tp)
     cfg, events = events[0], events[1:]
@@ -256,26 +258,32 @@ def run(ctx):
     scion_cap = any(e["n"] == 8 and e["u"] == 200 and e["ans"] for e in scion)
     capped_by_uid = sum(1 for e in events if e["ev"] == "probe" and e["ans"] and not e["bad"] and
                         e["n"] <= 8 and len(e["cookies"]) < e["n"])
-    stale_ok = 0      # exchanges that succeeded although an earlier reply was delivered first
+    # what the proxy did (facts about the environment, not about the code's reaction): an earlier reply
+    # delivered and the genuine one handed over after it; foreign requests under a held, valid, older key
+    stale_ok = 0          # (informational) exchanges that succeeded although an earlier reply was delivered first
+    stale_then_genuine = 0
     for b in behs:
-        st = False
+        st = lost = False
         for e in b:
             if e["ev"] == "req":
-                st = False
+                st = lost = False
             elif e["ev"] == "stale":
                 st = True
-            elif e["ev"] == "done" and e["ok"] and st:
-                stale_ok += 1
-    oldkey_probes = sum(1 for e in events if e["ev"] == "probe" and e["ans"] and e["kb"] > 0 and e["ck"] != e["prov"]["cur"])
+            elif e["ev"] in ("losereq", "loseresp", "norep"):
+                lost = True
+            elif e["ev"] == "done":
+                stale_then_genuine += st and not lost
+                stale_ok += st and e["ok"]
+    oldkey_probes = sum(1 for e in events if e["ev"] == "probe" and e["kb"] > 1 and e["kv"])
     need = dict(req=cnt["req"], rep=cnt["rep"], losereq=cnt["losereq"], loseresp=cnt["loseresp"],
                 norep=cnt["norep"], tick=cnt["tick"], rekey=cnt["rekey"], probe=cnt["probe"],
-                stale=cnt["stale"], stray=cnt["stray"], exchanges_ok_after_stale=stale_ok,
+                stale=cnt["stale"], stray=cnt["stray"], stale_then_genuine_delivered=stale_then_genuine,
                 probes_under_older_key=oldkey_probes,
                 rotated_replies=rotated, requests_under_retired_key=retired)
-    ctx.log("coverage: %s; live pool levels %s, function-level pool levels %s, behaviours with re-keying %d, "
+    ctx.log("coverage: %s; %d exchanges succeeded after an earlier reply had been delivered first; live pool levels %s, function-level pool levels %s, behaviours with re-keying %d, "
             "panics %d, probe sizes %s x unique-id lengths %s (%d replies capped because of the identifier); "
             "%d probes of the SCION listener (%d answered well, %d after a key rotation)" %
-            (need, levels_live, levels_fn, rekeys2, cnt["panic"], probes, probe_uids, capped_by_uid,
+            (need, stale_ok, levels_live, levels_fn, rekeys2, cnt["panic"], probes, probe_uids, capped_by_uid,
              len(scion), scion_ok, scion_rot))
     pred = design_f.result()   # raises Inconclusive if a design-level run failed
     bg.shutdown()
